@@ -5,6 +5,8 @@ import (
 
 	"github.com/verily-src/fhirpath-go/fhirpath/verifharness/core"
 	"github.com/verily-src/fhirpath-go/fhirpath/verifharness/fx"
+	"github.com/verily-src/fhirpath-go/fhirpath/verifharness/model"
+	"github.com/verily-src/fhirpath-go/internal/fhir"
 )
 
 // Probe evaluates sources on the standard inputs (developer aid).
@@ -13,6 +15,20 @@ func Probe(srcs []string) {
 	for _, s := range srcs {
 		in, eo := stdInputs()
 		r := fx.Eval(env, s, in, buildCompileOpts("experimental"), eo)
+		fmt.Printf("%-60s => %s\n", s, r.Short())
+	}
+}
+
+// ProbeRes prints the JSON of a generated resource and evaluates paths on it.
+func ProbeRes(args []string) {
+	var seed uint64
+	fmt.Sscan(args[1], &seed)
+	res, _ := genResource(args[0], seed, args[2] == "true")
+	b, err := model.MarshalJSON(res)
+	fmt.Println(string(b), err)
+	env, _ := core.NewEnv("PROBE", "quick", 1, 0, 1, "")
+	for _, s := range args[3:] {
+		r := fx.Eval(env, s, []fhir.Resource{res}, nil, nil)
 		fmt.Printf("%-60s => %s\n", s, r.Short())
 	}
 }
